@@ -360,9 +360,11 @@ func grpcTransport() (*transport, error) {
 	return t, nil
 }
 
+var confirmMu sync.Mutex
+
 // ---- execution of one interleaving
 
-const opLimit = 30 * time.Second
+var opLimit = 30 * time.Second // 120 s when a hang is being confirmed
 
 func payload(id int, big bool) string {
 	if big {
@@ -679,6 +681,18 @@ func main() {
 						}
 						vk.Inflight(w, name, []string{name, sc.String(), o})
 						v, hung := execOrder(t, sc, o)
+						if hung {
+							// not returning within the limit is reported only if a dedicated second
+							// execution on a fresh transport with four times the limit does not return either
+							if nt, err := mk[name](); err == nil {
+								t = nt
+								confirmMu.Lock()
+								opLimit = 120 * time.Second
+								v, hung = execOrder(t, sc, o)
+								opLimit = 30 * time.Second
+								confirmMu.Unlock()
+							}
+						}
 						mu.Lock()
 						execs[name]++
 						outcomes[sc.client+"/"+sc.server+"/"+retKinds[sc.ret].name] = true
